@@ -15,7 +15,7 @@ use std::fmt::Debug;
 use std::str::FromStr;
 
 fn by_name(tape: &[u32], st: &mut Stats) -> CaseResult {
-    let cfg = HistCfg { prop: "C10", weights: [3, 6, 0, 1, 1, 1], max_steps: 6, check_print: false, check_serde: false, weird_pct: 5 };
+    let cfg = HistCfg { prop: "C10", weights: [3, 6, 0, 1, 1, 1, 3], max_steps: 6, check_print: false, check_serde: false, weird_pct: 5 };
     let out = run_history(tape, st, &cfg)?;
     st.class_if(out.steps >= 2, ">=2 applications");
     st.class_if(out.n_bin_diff_vars >= 1, "binary application on operands with different variable sets");
@@ -319,7 +319,7 @@ pub fn def() -> PropDef {
         subs: vec![
             SubCheck {
                 name: "by_name",
-                rule: "tape -> table x pool of 3 parsed expressions x 1-6 steps (operate_unary, operate_binary, conversions, unknown names, DeepEx helper methods against tables that may or may not define the name); non-trivial = >=2 applications incl. a binary one on operands with different variable sets; distinct by history",
+                rule: "tape -> table x pool of 3 parsed expressions x 1-6 steps (operate_unary, operate_binary, conversions, unknown names, DeepEx helper methods and the overloaded operators - & | ^ % and unary minus against tables that may or may not define the name); non-trivial = >=2 applications incl. a binary one on operands with different variable sets; distinct by history",
                 kind: Kind::Tape { len: 500, quick: 20_000, thorough: 1_000_000, f: by_name },
             },
             SubCheck {
